@@ -39,7 +39,8 @@ static void ext_seen(Ext *e, const uint8_t *B, size_t type_off, size_t data_len)
 	else if (t == 0x01 && data_len >= 1) e->has_name = 1;
 	else if (t == 0x02 && data_len >= 1) e->has_path = 1;
 	else if (t == 0x50 && data_len >= 2) { e->has_perms = 1; e->perms = r16(d); }
-	else if (t == 0xcc && data_len >= 12) { e->has_perms = 2; }      /* OS-9: mapped later, never a symlink */
+	/* an OS-9 header (0xcc) is mapped to Unix permission bits only after the entry has been classified, so it has no say in
+	 * whether a 0x50 header made this a symbolic link */
 }
 
 int ref_must_reject(const uint8_t *B, size_t n)
